@@ -286,6 +286,34 @@ func (s *Seed) alphabet(dir string) {
 			}
 		}
 
+		// merge_into under a path of depth 2: through an inline struct field
+		// (f.g with f: {g: ref}) or through a reference (f.g with f: ref {g: ref})
+		for _, f := range fields {
+			inner, ok := resolveOnce(s.Pristine, f.Type)
+			if !ok || inner.Kind != ast.KindStruct || inner.Struct == nil {
+				continue
+			}
+			if f.Type.Kind == ast.KindRef {
+				if _, has := hasBuilderFor(f.Type.Ref.ReferredPkg, f.Type.Ref.ReferredType); !has {
+					continue // MakePath resolves references through the builders
+				}
+			}
+			for _, gf := range inner.Struct.Fields {
+				if gf.Type.Kind != ast.KindRef || gf.Type.Ref == nil || gf.Type.Ref.ReferredPkg != b.For.SelfRef.ReferredPkg {
+					continue
+				}
+				target, ok := s.Pristine.LocateObject(gf.Type.Ref.ReferredPkg, gf.Type.Ref.ReferredType)
+				srcName, has := hasBuilderFor(gf.Type.Ref.ReferredPkg, gf.Type.Ref.ReferredType)
+				if !ok || !has || target.Type.Kind != ast.KindStruct {
+					continue
+				}
+				under := f.Name + "." + gf.Name
+				r := a2(add(&Rule{B: true, Pkg: pkg, Kind: "merge_into", ID: ";source=" + srcName + ";under=" + under,
+					Params: map[string]any{"destination": bname, "source": srcName, "under_path": under}, Sel: Sel{Mode: "name", Name: bname}}))
+				r.InA3 = true
+			}
+		}
+
 		// per-package rules whose selector names nothing / uses the non-name selectors
 		if !seenPkg[pkg] {
 			seenPkg[pkg] = true
